@@ -699,6 +699,8 @@ SEVENTH_PASS = {
 }
 
 NINTH_PASS = {
+    "C16": ("Round 9: the right-hand sides of the hierarchy are linear in the auxiliary operators (no conjugate or transpose of a value "
+            "derived from them), so non-Hermitian initial operators are propagated correctly.", "taint rule on conjugation / transposition"),
     "C02": ("Round 9: the array in which the system-bath interaction collects its operators has a fixed floating element type.",
             "element-type rule on arrays filled operator by operator"),
     "C01": ("Round 9: sums of Foerster rates taken at once (numpy.sum over one axis of the rate array, before the loop nest) are part "
